@@ -193,6 +193,18 @@ Valid(T) ==
       [] T = "ColumnSchema" -> Columns
       [] T = "TableSchema" -> TableSchemas
       [] T = "DatabaseSchema" -> Schemas
+\* a deeper grammar for the thorough tier: longer sets, maps over every pair of key and value types, every value as
+\* argument of every condition function and mutator
+IsMapEnc(t) == IsA(t) /\ Len(t.a) = 2 /\ t.a[1] = S("map")
+DeepValues == UNION {SetsOf(t, 3) : t \in AtomTypes} \cup UNION {MapsOf(kt, vt, 2) : kt \in {"string", "integer", "uuid"}, vt \in AtomTypes}
+DeepValid(T) ==
+    CASE T = "OvsSet" -> {v \in DeepValues : ~IsMapEnc(v)}
+      [] T = "OvsMap" -> {v \in DeepValues : IsMapEnc(v)}
+      [] T = "Condition" -> {A(<<S("c1"), S(f), v>>) : f \in Functions, v \in Values}
+      [] T = "Mutation" -> {A(<<S("c1"), S(m), v>>) : m \in Mutators, v \in Values}
+      [] T = "Row" -> {O([c1 |-> v, c2 |-> w, c3 |-> x]) : v \in {N(1), SetEnc(<<>>)}, w \in SomeValues, x \in SomeValues}
+      [] OTHER -> {}
+
 \* integers beyond 2^53 in value position (a group of its own: the library reads numbers as float64)
 BigValid == {<<"OvsSet", x>> : x \in {Big("9007199254740993"), Big("-9223372036854775808"), SetEnc(<<Big("9007199254740993"), N(1)>>)}}
             \cup {<<"Row", O([c1 |-> Big("9007199254740993")])>>, <<"Condition", A(<<S("c1"), S("=="), Big("9007199254740993")>>)>>}
@@ -220,6 +232,9 @@ EqValue(a, b) ==
 Keys(t) == IF IsO(t) THEN DOMAIN t.o ELSE {}
 Has(t, m) == m \in Keys(t)
 Get(t, m, default) == IF Has(t, m) THEN t.o[m] ELSE default
+
+\* RFC 7047 requires the where member of a select (an empty one selects every row): an encoder must keep it
+KeepsWhere(a, b) == (IsO(a) /\ Has(a, "op") /\ a.o.op = S("select") /\ Has(a, "where")) => Has(b, "where")
 
 (* descriptors
    [d |-> "exact"]                          the trees are equal
